@@ -57,6 +57,12 @@ def main():
         err = spec.get("stdout_errors", "strict")
         sink = Sink(enc, err).install()
         mod = importlib.import_module("vf.props." + spec["prop"].lower())
+        # member names the library's own code mentions: offered as extra members by the document generators
+        from vf.engines import delegation as _deleg, rootchain as _rootchain
+        from vf.gen import vocab as _vocab
+
+        _names = _vocab.learn(lib.pkg_dir)["names"]
+        _deleg.EXTRA_NAMES = _rootchain.EXTRA_NAMES = _names
         if not spec.get("no_noise") and not getattr(mod, "NO_BACKGROUND_NOISE", False):
             # unrelated library activity between judged cases of EVERY property (own random stream, own directory)
             import random
